@@ -475,6 +475,36 @@ static void same_name_types(vh_rng* r) {
   del_root(A); del_root(B);
 }
 
+
+/* a statically declared type object is itself an object of type Type, but its header says so only after the first
+   type_of on it (the Cello() macro cannot name Type in a constant initialiser).  With that field put back to its
+   initial NULL, every lookup API that takes the type object as the RECEIVER must still answer as for any object of
+   type Type, whichever API is the first to meet it. */
+static void cold_receivers(vh_rng* r) {
+  for (int i = 0; i < NBUILTIN + NCLASSES; i++) {
+    var T = i < NBUILTIN ? *BUILTIN_TYPES[i] : *CLASSES[i - NBUILTIN].cls;
+    if (T == Type) { continue; }
+    if ((intptr_t)header(T)->alloc != AllocStatic) { continue; }
+    const struct clsinfo* ci = &CLASSES[vh_below(r, NCLASSES)];
+    var want = oracle_instance(Type, *ci->cls);
+    int api = (int)vh_below(r, 6);
+    header(T)->type = NULL;                       /* as at program start */
+    var exc = NULL; var got = NULL; bool b = false;
+    vh_evals(2);
+    switch (api) {
+      case 0: VH_CATCH(b = implements(T, *ci->cls), exc); if (!exc && b != (want != NULL)) { vh_violation(K("cold-receiver:implements:wrong-answer"), "implements(%s, %s) = %d on a type object nothing has looked at yet", raw_name(T), ci->name, (int)b); } break;
+      case 1: VH_CATCH(got = instance(T, *ci->cls), exc); if (!exc && got != want) { vh_violation(K("cold-receiver:instance:wrong-instance"), "instance(%s, %s) on a cold type object", raw_name(T), ci->name); } break;
+      case 2: VH_CATCH(got = type_of(T), exc); if (!exc && got != Type) { vh_violation(K("cold-receiver:type_of:not-Type"), "type_of(%s) is not Type", raw_name(T)); } break;
+      case 3: VH_CATCH(b = implements_method_at_offset(T, *ci->cls, 0), exc); if (!exc && b != (want != NULL && ((var*)want)[0] != NULL)) { vh_violation(K("cold-receiver:implements_method:wrong-answer"), "implements_method(%s, %s, member 0) on a cold type object", raw_name(T), ci->name); } break;
+      case 4: VH_CATCH(got = cast(T, Type), exc); if (!exc && got != T) { vh_violation(K("cold-receiver:cast:wrong-result"), "cast(%s, Type) on a cold type object", raw_name(T)); } break;
+      default: VH_CATCH((void)c_str(T), exc); break;
+    }
+    if (exc) { vh_violation(K("cold-receiver:raised"), "lookup API %d with the cold type object %s as receiver raised %s", api, raw_name(T), vh_exc_name(exc)); }
+    if (header(T)->type == NULL) { (void)type_of(T); }
+    vh_count("cold_type_objects_used_as_receivers");
+  }
+}
+
 /* ---------- concurrency: first lookups against cold caches from 16 threads ---------- */
 
 enum { NTHREADS = 16 };
@@ -595,6 +625,7 @@ static void fixed(void) {
   }
   for (int k = 0; k < 40; k++) { vh.oplen = 0; vh.oplog[0] = 0; vh.nops = 0; fallback_case(&r); }
   for (int k = 0; k < 24; k++) { vh.oplen = 0; vh.oplog[0] = 0; vh.nops = 0; same_name_types(&r); }
+  for (int k = 0; k < 12; k++) { vh.oplen = 0; vh.oplog[0] = 0; vh.nops = 0; vh_op("cold type objects as receivers, round %d", k); cold_receivers(&r); }
   concurrent_cold_lookups(&r, 50);
 }
 
@@ -605,6 +636,7 @@ static void case_random(vh_rng* r, long index) {
     runtime_type_case(r, ni);
     for (int k = 0; k < 4; k++) { fallback_case(r); }
     same_name_types(r);
+    cold_receivers(r);
   } else if (index % 3 == 1) {
     int n = 200 + (int)vh_below(r, 400);
     int cold = vh_chance(r, 50);
